@@ -54,6 +54,7 @@ Record icfg := {
   i_cap : capture;
   i_static : bool;
   i_handler : option ihandler;
+  i_prep_discards : bool;   (* the prepare handler itself calls discard_recording() before it returns *)
   i_run_missing : bool;
   i_vmiss : vmiss;
   i_fallbacks : fallbacks
@@ -79,6 +80,7 @@ Inductive code :=
 | Try (c h : code)                       (* try: c  except Exception: h *)
 | Discard (k : code)                     (* tape_recorder.discard_recording() *)
 | Force (k : code)                       (* tape_recorder.force_sample_recording() *)
+| Enable (b : bool) (k : code)           (* tape_recorder.enable_recording() / disable_recording() *)
 | RecordData (key : str) (e : expr) (k : code)
 | PlayData (key : str) (k : code).
 
